@@ -8,7 +8,7 @@ SPEC = {'level': 'exploration',
  'stages': [{'kind': 'gen',
              'binary': 'vh_c08',
              'target': 'c08_chainsel',
-             'cases_quick': 900,
+             'cases_quick': 1100,
              'cases_thorough': 20000,
              'min_cases_quick': 300,
              'floors': {'reorg-depth>=2': 0.2, 'invalid-beats-best': 0.15, 'out-of-order': 0.08, 'invalidate-active': 0.15,
